@@ -14,6 +14,7 @@ RULE = ('byte strings as messages and as files: well-formed messages (packaged a
         'truncate/insert/delete/bit-flip mutations; random bytes; VBS/IPM files built from those records with mutated length '
         'prefixes, truncation and block damage; CLI tool runs on malformed files; every case under a watchdog; '
         'non-trivial = distinct input that gets past the header checks (outcome is a dict or a data error raised after the bitmap was read)')
+CALL_VARIANTS = True     # bytearray / memoryview messages and earlier failing calls around the harness's loads / dumps calls (worker.install_call_variants)
 EXHAUSTIVE = {}
 ASSUMPTIONS = ['strptime / re / Decimal are total and fail only with the exception classes the code catches (oracles)',
                'memory exhaustion and interpreter limits are outside the model']
@@ -196,10 +197,10 @@ def impl(case):
         recs = []
         try:
             if case['reader'] == 'ipm':
-                for d in mciipm.IpmReader(in_stream(f), encoding=case['codec'], blocked=case['blocked']):
+                for d in mciipm.IpmReader(in_stream(f, case['blocked']), encoding=case['codec'], blocked=case['blocked']):
                     recs.append(iu.dict_text(d) if d else '~')
             else:
-                for r in mciipm.VbsReader(in_stream(f), blocked=case['blocked']):
+                for r in mciipm.VbsReader(in_stream(f, case['blocked']), blocked=case['blocked']):
                     recs.append(r.hex() or '_')
         except Exception as ex:
             cls = exc_class(ex)
